@@ -9,7 +9,7 @@ from ..algebra import Extractor, Rat, Unsupported
 from ..cfg import CFG
 from ..core import Ctx
 from ..model import body_stmts, dotted, kwarg, norm, walk_no_nested
-from .common import assigned_value, enclosing, expand_locals, is_cmp, prog, resolve_local
+from .common import CACHING_DECORATORS, assigned_value, enclosing, expand_locals, is_cmp, prog, resolve_local
 
 CLS = "CorpusShufflingTool"
 
@@ -221,25 +221,47 @@ def rule_perturbations(ctx: Ctx):
         ctx.check(okd, "R-C19-2", f, nd[0] if nd else None, "the new category is one of the reference's categories, drawn from the row of the unit's current category", key="cat-draw")
         # identity at magnitude 0 for every formula of the transition matrix
         forms = [s for s in walk_no_nested(f.node) if isinstance(s, ast.Assign) and PM and norm(s.targets[0]) == PM and isinstance(s.value, ast.BinOp)]
-        locals_ = sorted({x.id for x in walk_no_nested(f.node) if isinstance(x, ast.Name) and isinstance(x.ctx, ast.Store)})
+        host = f
+        if not forms and PM:
+            # the matrix comes from a method of the tool (not inlined: it carries a decorator, or is a public method): its returns are the formulas
+            pdefs = [v for v in assigned_value(f.node, PM) if isinstance(v, ast.Call) and isinstance(v.func, ast.Attribute) and norm(v.func.value) == f.self_name]
+            if len(pdefs) == 1:
+                mth = M.find_method(f.cls, pdefs[0].func.attr)
+                if mth is not None:
+                    host = mth
+                    ctx.functions_analysed.add(mth.qualname)
+                    forms = [ast.Assign(targets=[ast.Name(id=PM, ctx=ast.Store())], value=r.value, lineno=r.lineno, col_offset=r.col_offset)
+                             for r in walk_no_nested(mth.node) if isinstance(r, ast.Return) and isinstance(r.value, ast.BinOp)]
+                    cached = [d for d in mth.decorators if d.split(".")[-1] in CACHING_DECORATORS]
+                    reads_mag = any(norm(x) == f"{mth.self_name}.magnitude" for x in walk_no_nested(mth.node) if isinstance(x, ast.Attribute))
+                    if cached and reads_mag:
+                        ctx.bad("R-C19-3", mth, None, f"the transition matrix is memoised (@{cached[0]}) per tool and options, but it is computed from self.magnitude, "
+                                f"which callers reassign between shuffles: after a shuffle at magnitude m > 0, a shuffle at magnitude 0 re-uses the matrix of m "
+                                f"and changes categories", construct=f"@{cached[0]}", key="cat-zero-cached")
+        if not forms:
+            ctx.undecided("R-C19-3", f, None, "the formulas of the category transition matrix were not found (not a verdict)", key="cat-zero")
+        f_ = host
+        locals_ = sorted({x.id for x in walk_no_nested(f_.node) if isinstance(x, ast.Name) and isinstance(x.ctx, ast.Store)})
         okI = bool(forms)
         for s in forms:
             try:
                 # the magnitude may be read through a local; matrices (multiply assigned or mutated) keep their names
-                eye_names = {norm(d.targets[0]) for d in walk_no_nested(f.node) if isinstance(d, ast.Assign) and norm(d.value).startswith("np.eye(")}
-                v = _at_zero(expand_locals(f.node, s.value, skip=eye_names | {PM}), mag_of(f), {})
+                eye_names = {norm(d.targets[0]) for d in walk_no_nested(f_.node) if isinstance(d, ast.Assign) and norm(d.value).startswith("np.eye(")}
+                v = _at_zero(expand_locals(f_.node, s.value, skip=eye_names | {PM}), mag_of(f_), {})
                 base = next((nm for nm in locals_ if v == Rat.var(nm)), None)
                 if base is None:
                     okI = False
                     continue
                 # what the formula reduces to must be the identity matrix: its only definition besides the formulas themselves is np.eye(n)
-                bdefs = [d for d in walk_no_nested(f.node) if isinstance(d, ast.Assign) and norm(d.targets[0]) == base and d not in forms]
+                bdefs = [d for d in walk_no_nested(f_.node) if isinstance(d, ast.Assign) and norm(d.targets[0]) == base and d not in forms]
                 if not (len(bdefs) == 1 and norm(bdefs[0].value).startswith("np.eye(")):
                     okI = False
             except Unsupported:
                 okI = False
-        ctx.check(okI, "R-C19-3", f, forms[0] if forms else None, f"magnitude 0: the transition matrix reduces to the identity in all {len(forms)} formulas: every category is kept",
-                  bad_detail="the category transition matrix is not the identity at magnitude 0", key="cat-zero")
+        if forms:
+            ctx.check(okI, "R-C19-3", f_, forms[0] if forms and hasattr(forms[0], "end_lineno") else None,
+                      f"magnitude 0: the transition matrix reduces to the identity in all {len(forms)} formulas: every category is kept",
+                      bad_detail="the category transition matrix is not the identity at magnitude 0", key="cat-zero")
     # ---------------- splits
     f = ctx.fn(f"{CLS}.splits_shuffle", "R-C19-2")
     cont = f.params[1]
